@@ -6,6 +6,7 @@ import (
 	"fmt"
 	"hash/fnv"
 	"os"
+	"path/filepath"
 	"runtime/debug"
 	"strconv"
 	"testing"
@@ -184,5 +185,24 @@ func finish(t *testing.T, rec *evid.Recorder) {
 	rec.Write()
 	if rec.Violations() > 0 && !t.Failed() {
 		t.Fail()
+	}
+}
+
+// fuzzFail records a failure found by a native fuzz target as an ordinary replay file (same
+// JSON shape as Recorder.Violation) so that ./run <ID> replay <file> re-executes it through the
+// property's check function. The fuzzing engine keeps minimising after the first failure, so the
+// file is overwritten by every smaller failing input; the last one written is the minimal one.
+func fuzzFail(id, kind string, c interface{}, f *evid.Fail) {
+	dir := os.Getenv("VERIF_OUTDIR")
+	if dir == "" {
+		return
+	}
+	b, err := json.MarshalIndent(map[string]interface{}{"property": id, "kind": kind, "sig": f.Sig, "msg": f.Msg, "case": c}, "", " ")
+	if err != nil {
+		return
+	}
+	tmp := filepath.Join(dir, fmt.Sprintf("fail-fuzz.json.%d", os.Getpid()))
+	if os.WriteFile(tmp, b, 0o644) == nil {
+		_ = os.Rename(tmp, filepath.Join(dir, "fail-fuzz.json"))
 	}
 }
